@@ -64,21 +64,70 @@ package snapshot
 //@   loop 0 step flags_is_field_4_varint: fnum == 4 ==> wt == 0 && varintOK(data[p:]) && kv.Flags == uint32(pval) && offset == p+plen && keySame && valSame && tsSame
 //@   loop 0 step other_fields_skipped: fnum != 1 && fnum != 2 && fnum != 3 && fnum != 4 ==> offset == p + fieldPayloadLen(data[p:], wt) && keySame && valSame && tsSame && flSame
 
+// DBI.Next against the schema: fields other than entries (number 2) are
+// skipped whole, whatever their number; the first entries field at or after
+// the cursor is handed to KV.Unmarshal exactly (its length-delimited payload),
+// and the cursor ends right behind it.
 //@ func (d *DBI) Next
 //@   requires cur_in_range: 0 <= d.cur && d.cur <= len(d.data)
 //@   nopanic
-//@   modifies d.cur
+//@   modifies d.cur, ghost_fs, ghost_prev_fs, ghost_kArr, ghost_kOff, ghost_kLen, ghost_vArr, ghost_vOff, ghost_vLen, ghost_ts0, ghost_fl0
 //@   loop 0 invariant range: 0 <= offset && offset <= len(d.data) && offset >= d.cur
 //@   loop 0 decreases len(d.data) - offset
 //@   ensures cur_in_range: 0 <= d.cur && d.cur <= len(d.data)
 //@   ensures advances: err == nil ==> d.cur > old(d.cur)
 //@   ensures cursor_monotone: d.cur >= old(d.cur)
+//@   loop 0 ghost fs := offset
+//@   let fstart = int(ghost_fs)
+//@   let tagv = varintVal(d.data[fstart:])
+//@   let fnum = tagv >> 3
+//@   let wt = tagv & 7
+//@   let p = fstart + varintLen(d.data[fstart:])
+//@   let plen = varintLen(d.data[p:])
+//@   let pval = varintVal(d.data[p:])
+//@   loop 0 step tag_is_a_varint: varintOK(d.data[fstart:]) && tag == int(fnum) && uint64(wireType) == wt
+//@   loop 0 step other_fields_skipped: fnum != 2 ==> offset == p + fieldPayloadLen(d.data[p:], wt)
+//@   loop 0 step stops_at_entries: fnum == 2 ==> offset == p
+//@   loop 0 invariant last_field_read: tag == 2 ==> varintOK(d.data[fstart:]) && fnum == 2 && uint64(wireType) == wt && offset == p
+//@   let qstart = int(ghost_prev_fs)
+//@   let qtagv = varintVal(d.data[qstart:])
+//@   let q = qstart + varintLen(d.data[qstart:])
+//@   let qlen = varintLen(d.data[q:])
+//@   let qval = varintVal(d.data[q:])
+//@   at_call snapshot.(*KV).Unmarshal#0 assert entry_payload: qtagv >> 3 == 2 && qtagv & 7 == 2 && varintOK(d.data[q:]) && sameSlice(arg1, d.data[q+qlen:q+qlen+int(qval)]) && d.cur == q+qlen+int(qval)
 
+// indexData against the schema: name = 1 and transform = 4 are length
+// delimited strings, flags = 3 is a varint, entries = 2 are stepped over by
+// their declared length, every other field is skipped whole.
 //@ func (d *DBI) indexData
 //@   nopanic
-//@   modifies d.name, d.flags, d.transform, d.flushed
+//@   modifies d.name, d.flags, d.transform, d.flushed, ghost_fs, ghost_nArr, ghost_nOff, ghost_nLen, ghost_tArr, ghost_tOff, ghost_tLen, ghost_fl0
 //@   loop 0 invariant range: 0 <= offset && offset <= len(data) && sameSlice(data, d.data)
 //@   loop 0 decreases len(data) - offset
+//@   loop 0 ghost fs := offset
+//@   loop 0 ghost nArr := arrayOf(d.name)
+//@   loop 0 ghost nOff := offsetOf(d.name)
+//@   loop 0 ghost nLen := len(d.name)
+//@   loop 0 ghost tArr := arrayOf(d.transform)
+//@   loop 0 ghost tOff := offsetOf(d.transform)
+//@   loop 0 ghost tLen := len(d.transform)
+//@   loop 0 ghost fl0 := d.flags
+//@   let fstart = int(ghost_fs)
+//@   let tagv = varintVal(data[fstart:])
+//@   let fnum = tagv >> 3
+//@   let wt = tagv & 7
+//@   let p = fstart + varintLen(data[fstart:])
+//@   let plen = varintLen(data[p:])
+//@   let pval = varintVal(data[p:])
+//@   let nameSame = arrayOf(d.name) == ghost_nArr && offsetOf(d.name) == ghost_nOff && uint64(len(d.name)) == ghost_nLen
+//@   let transformSame = arrayOf(d.transform) == ghost_tArr && offsetOf(d.transform) == ghost_tOff && uint64(len(d.transform)) == ghost_tLen
+//@   let flagsSame = d.flags == ghost_fl0
+//@   loop 0 step tag_is_a_varint: varintOK(data[fstart:])
+//@   loop 0 step name_is_field_1: fnum == 1 ==> wt == 2 && varintOK(data[p:]) && seqEq(d.name, data[p+plen:p+plen+int(pval)]) && offset == p+plen+int(pval) && transformSame && flagsSame
+//@   loop 0 step entries_is_field_2: fnum == 2 ==> wt == 2 && varintOK(data[p:]) && offset == p+plen+int(pval) && nameSame && transformSame && flagsSame
+//@   loop 0 step flags_is_field_3_varint: fnum == 3 ==> wt == 0 && varintOK(data[p:]) && d.flags == pval && offset == p+plen && nameSame && transformSame
+//@   loop 0 step transform_is_field_4: fnum == 4 ==> wt == 2 && varintOK(data[p:]) && seqEq(d.transform, data[p+plen:p+plen+int(pval)]) && offset == p+plen+int(pval) && nameSame && flagsSame
+//@   loop 0 step other_fields_skipped: fnum != 1 && fnum != 2 && fnum != 3 && fnum != 4 ==> offset == p + fieldPayloadLen(data[p:], wt) && nameSame && transformSame && flagsSame
 
 //@ func NewDBIFromData
 //@   nopanic
